@@ -571,7 +571,14 @@ def build(P, env=None, name=None, problem_cls=None):
     for g in P["goals"]:
         problem.add_goal(b_expr(g, sc))
     for inv in P.get("invariants", []):
-        problem.add_state_invariant(b_expr(inv, sc))
+        x = b_expr(inv, sc)
+        if P.get("inv_outside") and x.is_forall():
+            # surface form only: Forall v. Always(body) instead of Always(Forall v. body) -- the same invariant
+            # (Problem.state_invariants reads both forms), written the way a user may write it
+            em = sc.em
+            problem.add_trajectory_constraint(em.Forall(em.Always(x.arg(0)), *x.variables()))
+        else:
+            problem.add_state_invariant(x)
     for tc in P.get("traj", []):
         problem.add_trajectory_constraint(b_expr(tc, sc))
     for tg in P.get("timed_goals", []):
